@@ -546,4 +546,30 @@ def step (h : H) (op : Op) : H × Res :=
 
 def run (h : H) (ops : List Op) : H := ops.foldl (fun h op => (step h op).1) h
 
+/-! ### Attributes answered from the surroundings (`get_repository`) -/
+
+/-- Position of `repository` among the compared attributes of a Document and of a Section (the
+    harness lists them in this order for both kinds). -/
+def repoAttr : Nat := 3
+
+/-- The object's own value of attribute `k`; the attribute texts are Python `repr`s, `None` is
+    "no value". -/
+def ownAttr (h : H) (x k : Nat) : Option String :=
+  match (h.node x).attrs[k]? with
+  | some v => if v = "None" then none else some v
+  | none => none
+
+/-- `Section.get_repository()`: `if self._repository is None and self.parent is not None: return
+    self.parent.get_repository()`, otherwise the object's own value (`Sectionable.get_repository`
+    of the Document returns its own). The fuel bounds the walk up the parents. -/
+def inherited (h : H) : Nat → Nat → Nat → Option String
+  | 0, _, _ => none
+  | fuel + 1, x, k =>
+    match ownAttr h x k with
+    | some v => some v
+    | none =>
+      match (h.node x).parent with
+      | some p => inherited h fuel p k
+      | none => none
+
 end Clone
